@@ -44,14 +44,14 @@ Theorem C12_reassembly_safe :
 Proof. exact reassembly_safe_list. Qed.
 Print Assumptions C12_reassembly_safe.
 
-(* ---- receiver: completeness (one partition per message, within the buffer limits) + "never
-   surfaced while a byte is missing" ---- *)
+(* ---- receiver: completeness (one partition per message - any contiguous cover, zero-length
+   fragments anywhere - within the buffer limits) + "never surfaced while a byte is missing" ---- *)
 Theorem C12_reassembly_complete :
   forall (msgs : list hmsg) (P : N -> list frag) (rs : list record),
     let n := N.of_nat (length msgs) in
     n < 65536 -> numbered msgs -> (forall j, j < n -> good_part (msg_fn msgs j) (P j)) ->
     cap_frags n P < max_count ->
-    Forall (fun r => part_rec n P r /\ cap_bytes n P + record_size r < max_size) rs ->
+    Forall (fun r => gen_rec n P r /\ cap_bytes n P + record_size r < max_size) rs ->
     let '(st, pops, pn) := run init rs in
     pn = false /\
     map strip pops = firstn (N.to_nat (cur st)) (map hstrip msgs) /\
@@ -95,21 +95,44 @@ Theorem C12_pop_needs_offset0 :
 Proof. exact pop_needs_offset0. Qed.
 Print Assumptions C12_pop_needs_offset0.
 
-(* the one input class on which Pop does not return but dereferences nil *)
-Theorem C12_pop_panic_iff :
-  forall st, pop st = PPanic <->
-    exists e, clookup (cur st) (cache st) = Some e /\ e_sum e = 0 /\ e_hlen e = 0 /\ efind 0 (e_frags e) = None.
-Proof. exact pop_panic_iff. Qed.
-Print Assumptions C12_pop_panic_iff.
+(* Pop never panics: after ANY sequence of Push (any payload) / Pop / AdvanceTo calls, and for any
+   list of records handled the way bufferHandshakeRecord handles them.  (The model keeps the value
+   PPanic for the nil dereference of fragmentByOffset[0] so that [pop] follows the code line by
+   line; these theorems say it is unreachable.) *)
+Theorem C12_pop_never_panics :
+  forall ops : list api, pop (fold_left api_step ops init) <> PPanic.
+Proof. exact pop_never_panics. Qed.
+Print Assumptions C12_pop_never_panics.
 
-Theorem C12_pop_panic_reachable_refuted :
-  snd (push init panic_record) = (true, false, false) /\
-  pop (fst (push init panic_record)) = PPanic /\
-  snd (arrive init panic_record) = true.
-Proof. exact pop_panic_reachable. Qed.
-Print Assumptions C12_pop_panic_reachable_refuted.
+Theorem C12_run_never_panics :
+  forall rs : list record, snd (run init rs) = false.
+Proof. exact run_never_panics. Qed.
+Print Assumptions C12_run_never_panics.
 
-(* ---- liveness refutations ---- *)
+(* an empty fragment that is not the offset-0 fragment of an empty message is inert *)
+Theorem C12_empty_fragment_inert :
+  forall ep st b f, skip_empty f = true -> push_frag ep (st, b) f = (st, b || (f_seq f <? cur st)).
+Proof. exact empty_fragment_inert. Qed.
+Print Assumptions C12_empty_fragment_inert.
+
+Theorem C12_zero_fragment_in_message_inert :
+  forall ep st b f, f_flen f = 0 -> f_len f <> 0 -> fst (push_frag ep (st, b) f) = st.
+Proof. exact zero_fragment_in_message_inert. Qed.
+Print Assumptions C12_zero_fragment_in_message_inert.
+
+(* regression corpus: the two inputs that failed before the fix in the tree *)
+Theorem C12_zero_fragment_regression :
+  good_part rp_msg zf_partition /\
+  map strip (snd (fst (run init zf_history))) = [hstrip rp_msg] /\ snd (run init zf_history) = false.
+Proof. exact zero_fragment_regression. Qed.
+Print Assumptions C12_zero_fragment_regression.
+
+Theorem C12_old_panic_input_regression :
+  arrive init old_panic_record = (init, (true, false, false), [], false).
+Proof. exact old_panic_input_regression. Qed.
+Print Assumptions C12_old_panic_input_regression.
+
+(* ---- liveness boundaries (documentation: outside the premises of C12_reassembly_complete) ---- *)
 Theorem C12_overshoot_wedges_forever :
   forall st rs, Overshot st -> snd (fst (run st rs)) = [] /\ Overshot (fst (fst (run st rs))).
 Proof. exact overshoot_wedges_forever. Qed.
@@ -120,18 +143,6 @@ Theorem C12_repartition_wedges_refuted :
   (forall rs, snd (fst (run init (rp_history ++ rs))) = []).
 Proof. exact repartition_wedges_refuted. Qed.
 Print Assumptions C12_repartition_wedges_refuted.
-
-Theorem C12_zero_fragment_wedges_refuted :
-  contiguous 0 zf_partition /\ cat_data zf_partition = m_body rp_msg /\ Forall (hdr_of rp_msg) zf_partition /\
-  Forall (fun r => incl (rec_frags r) zf_partition) zf_history /\
-  ZeroBlocked (fst (fst (run init zf_history))).
-Proof. exact zero_fragment_wedges_refuted. Qed.
-Print Assumptions C12_zero_fragment_wedges_refuted.
-
-Theorem C12_zero_fragment_wedges_forever :
-  forall st rs, ZeroBlocked st -> snd (fst (run st rs)) = [] /\ ZeroBlocked (fst (fst (run st rs))).
-Proof. exact zero_fragment_wedges_forever. Qed.
-Print Assumptions C12_zero_fragment_wedges_forever.
 
 Theorem C12_full_rejects_forever :
   forall st rs, Full st -> run st rs = (st, [], false).
